@@ -414,6 +414,10 @@ func c12Sequence(c *Ctx, s *netSpec, build func() *network.Network, steps int, d
 		if r.Intn(3) == 0 {
 			fsteps += 1 + r.Intn(3)
 		}
+		partial := 0
+		if steps >= 2 && r.Intn(4) == 0 {
+			partial = 1 + r.Intn(steps-1)
+		}
 		if steps >= 2 && r.Intn(4) == 0 {
 			_, _ = std.MaxActivationDepthWithCap(1 + r.Intn(steps-1))
 			c.Count("solver.sequence_capped_depth_query_before", 1)
@@ -444,6 +448,13 @@ func c12Sequence(c *Ctx, s *netSpec, build func() *network.Network, steps int, d
 			if lerr := inst.solver.LoadSensors(in); lerr != nil {
 				c.Violate("solver-error/load", detail(nil), "%s LoadSensors failed in a sequence: %v", inst.name, lerr)
 				return false
+			}
+			if partial > 0 {
+				// a first attempt with too few steps (the standard solver refuses it when an output has not been reached yet); the
+				// caller goes on from there without loading again: "at least as many steps as the longest path" follow
+				if _, perr := inst.solver.ForwardSteps(partial); perr != nil {
+					c.Count("solver.sequence_short_attempt_refused_"+inst.name, 1)
+				}
 			}
 			var aerr error
 			op := ""
